@@ -38,7 +38,7 @@ def oracle(case):
     k = case["kind"]
     _stats[k] += 1
     if k == "convert" and i["converts"]:
-        for f, what in (("same_twice", "twice in the same process"), ("same_threaded", "on concurrent threads"), ("same_fresh_process", "in a fresh process")):
+        for f, what in (("same_twice", "twice in the same process"), ("same_threaded", "on concurrent threads"), ("same_fresh_process", "in a fresh process (which converts the projects in the reverse order)")):
             if i[f] is False:
                 v.append({"what": f"{case['label']}: converting the same project {what} does not give byte-identical JSON", "key": {"class": "convert-" + f}})
     elif k == "reference":
